@@ -474,9 +474,12 @@ def check_entry_case(spec: dict) -> dict:
               "sibling-prefix": str(base / "proj2" / "a")}[spec["module_path"]]
         kw = {}
         on = set(spec["opts"])
-        kw["exclusions"] = ("*n.py",) if "exclusions" in on else ()
+        if "exclusions" in on:
+            kw["exclusions"] = ("*n.py",)
         if "regex_exclusions" in on:
             kw["regex_exclusions"] = (r".*n\.py$",)
+            if "exclusions" not in on:
+                kw["exclusions"] = ()  # the documented way to use regex_exclusions alone
         if "external_exclusions" in on:
             kw["external_exclusions"] = ("logging*",)
         if "regex_external_exclusions" in on:
